@@ -835,6 +835,65 @@ pub fn run() {
                     };
                     out.push(a);
                 }
+                // the archive upload: import <v1|v2> header=<spelling|omit> form=<spelling|omit> session=<s>
+                // (the namespace travels in the `tenant` header; the multipart body has a `tenant` text field too)
+                Some("import") if ws.len() >= 2 => {
+                    let data_id = "imported-by-sweep";
+                    let header = ns_arg(kv(&ws, "header"));
+                    let form = ns_arg(kv(&ws, "form"));
+                    let (header, form) = match (header, form) {
+                        (Some(h), Some(f)) => (h, f),
+                        _ => {
+                            out.push("bad-op ns".to_string());
+                            continue;
+                        }
+                    };
+                    let zip_bytes = {
+                        use std::io::Write;
+                        let mut buf = std::io::Cursor::new(Vec::new());
+                        {
+                            let mut z = zip::ZipWriter::new(&mut buf);
+                            let opt = zip::write::FileOptions::default().compression_method(zip::CompressionMethod::Stored);
+                            let _ = z.start_file(format!("{}/{}", GROUP, data_id), opt);
+                            let _ = z.write_all(b"imported content");
+                            let _ = z.finish();
+                        }
+                        buf.into_inner()
+                    };
+                    const B: &str = "----verifsweepboundary7MA4YWxkTrZu0gW";
+                    let mut body: Vec<u8> = vec![];
+                    if let Some(v) = &form.value {
+                        body.extend_from_slice(format!("--{}\r\nContent-Disposition: form-data; name=\"tenant\"\r\n\r\n{}\r\n", B, v).as_bytes());
+                    }
+                    body.extend_from_slice(format!("--{}\r\nContent-Disposition: form-data; name=\"file\"; filename=\"export.zip\"\r\nContent-Type: application/zip\r\n\r\n", B).as_bytes());
+                    body.extend_from_slice(&zip_bytes);
+                    body.extend_from_slice(format!("\r\n--{}--\r\n", B).as_bytes());
+                    let path = if ws[1] == "v2" { "/rnacos/api/console/v2/config/import" } else { "/rnacos/api/console/config/import" };
+                    let mut req = test::TestRequest::post().uri(path).insert_header(("Content-Type", format!("multipart/form-data; boundary={}", B)));
+                    if let Some(v) = &header.value {
+                        req = req.insert_header(("tenant", v.clone()));
+                    }
+                    let sess = kv(&ws, "session");
+                    if !sess.is_empty() && sess != "none" {
+                        let tok = tokens.iter().find(|(a, _)| a == sess).map(|(_, t)| t.clone()).unwrap_or(sess.to_string());
+                        req = req.insert_header(("Token", tok));
+                    }
+                    let req = req.set_payload(body).peer_addr("127.0.0.1:50000".parse().unwrap()).to_request();
+                    let status = match test::try_call_service(&console, req).await {
+                        Ok(resp) => resp.status().as_u16(),
+                        Err(_) => 0,
+                    };
+                    // the import runs through raft: give it a moment, then look where the configuration has appeared
+                    tokio::time::sleep(std::time::Duration::from_millis(120)).await;
+                    let mut written = vec![];
+                    for (marker, tenant) in [("nsa", "nsa"), ("nsb", "nsb"), ("pub", ""), ("zzz", "zzz")] {
+                        if adm.cfg_get(data_id, tenant).await.is_some() {
+                            written.push(marker);
+                            adm.cfg_remove(data_id, tenant).await;
+                        }
+                    }
+                    out.push(format!("status {} written={}", status, if written.is_empty() { "-".to_string() } else { written.join(",") }));
+                }
                 Some("endpoints") => {
                     let v: Vec<String> = ENDPOINTS.iter().map(|e| format!("{}:{}:{}:{}", e.id, e.kind, e.method, e.path)).collect();
                     out.push(format!("endpoints {}", v.join(" ")));
